@@ -10,8 +10,10 @@ import (
 )
 
 // C14: histograms. A case is a histogram shape plus a history of operations.
-//   Kind 0 LinearHist(Min, Max, NBins); Kind 1 LogHist(B, M, Max);
-//   Kind 2 a harness-defined Histogram with fixed counters and BinToValue(bin) = bin.
+//
+//	Kind 0 LinearHist(Min, Max, NBins); Kind 1 LogHist(B, M, Max);
+//	Kind 2 a harness-defined Histogram with fixed counters and BinToValue(bin) = bin.
+//
 // Op T: 0 Add(X); 1 BinToValue(X); 2 HistogramQuantile(h, X); 3 Counts(); 4 HistogramIQR(h).
 type c14Op struct {
 	T int `json:"t"`
@@ -36,9 +38,9 @@ type c14Fixed struct {
 	counts      []uint
 }
 
-func (h *c14Fixed) Add(x float64)                    {}
-func (h *c14Fixed) Counts() (uint, []uint, uint)     { return h.under, h.counts, h.over }
-func (h *c14Fixed) BinToValue(bin float64) float64   { return bin }
+func (h *c14Fixed) Add(x float64)                  {}
+func (h *c14Fixed) Counts() (uint, []uint, uint)   { return h.under, h.counts, h.over }
+func (h *c14Fixed) BinToValue(bin float64) float64 { return bin }
 
 // recording wrapper: which fractional bin did HistogramQuantile ask for, and what came back
 type c14Spy struct {
@@ -383,7 +385,7 @@ func c14LogValues(rng *rand.Rand, b, m int, mx float64, nb int, n int, edgy bool
 
 func c14Size(rng *rand.Rand, max int) int {
 	// log-uniform 1..max
-	return int(math.Exp(rng.Float64()*math.Log(float64(max)+0.99)))
+	return int(math.Exp(rng.Float64() * math.Log(float64(max)+0.99)))
 }
 
 func c14Gen(tier string, rng *rand.Rand, emit func(interface{})) {
